@@ -8,6 +8,7 @@ import ScVerif.C09.Mixed
 import ScVerif.C09.Bus
 import ScVerif.C09.Writers
 import ScVerif.C09.ReadOpts
+import ScVerif.C09.UpdateKind
 /-! Driver handler for C09.
 
 * `merge <a> <b>`                 → `mergeChanges a b` (`drop` when `send == false`)
@@ -53,6 +54,10 @@ import ScVerif.C09.ReadOpts
 * `ropts <opt>*`                  `ComputeReadConfig` over the read options in the order given (`bp1|bp0` = WithBackpressure,
                                   `uo1|uo0` = WithUpdatesOnly, `e` = an option that touches neither) and the branch in `onUpdate`
                                   (ReadOpts.lean) → `bp=<0|1> uo=<0|1> path=<lossy|blocking>`
+* `ucommit <cia> <atRead> <atCommit> <msg>`  `Collection.Update` of one item (UpdateKind.lean): `firstRead` at a store holding
+                                  `<atRead>` for it, `commit` at a store holding `<atCommit>` (`-` = absent, `_` = the empty message, which
+                                  is also the provisional message; `<cia>` = `1|0`: WithCreateIfAbsent) → `NotFound` | `Aborted` |
+                                  `<KIND>,<old>,<new>`
 * `set <deadline> <listener>*`    `Value.set` after its commit: `Bus.Send` as above, then the error mapping
                                   (`setReturnsError`) → `error@<t>` or `ok@<t>`
 -/
@@ -419,8 +424,28 @@ def parseXSub? (seed : Option String) : String → Option (MSub String)
   | "B" => some (.bp (match seed with | some s => ⟨some s, [], [s]⟩ | none => BCfg.init))
   | _ => none
 
+def parseStored? (s : String) : Option (Option String) :=
+  if s = "" then none else if s = "-" then some none else if s = "_" then some (some "") else some (some s)
+
+def showStored : Option String → String
+  | none => "-"
+  | some v => if v = "" then "_" else v
+
 def handle? (toks : List String) : Option String :=
   match toks with
+  | ["ucommit", cia, atRead, atCommit, msg] => do
+    let cia ← parseFlag? cia
+    let r0 ← parseStored? atRead
+    let r1 ← parseStored? atCommit
+    if msg = "" || msg = "-" || msg = "_" then none
+    let s0 : View String String := View.empty.set "a" r0
+    let s1 : View String String := View.empty.set "a" r1
+    match firstRead "" s0 ⟨"a", msg, cia⟩ with
+    | none => pure "NotFound"
+    | some u =>
+      match commit "" s1 u with
+      | .aborted => pure "Aborted"
+      | .ok _ ev => pure (showKind ev.kind ++ "," ++ showStored ev.old ++ "," ++ showStored ev.new)
   | "xrun" :: kinds :: seed :: ms => do
     let sd : Option String := if seed = "-" then none else some seed
     let subs ← (kinds.splitOn ",").mapM (parseXSub? sd)
